@@ -215,47 +215,5 @@ fn insert_lazy_clone_tgt<T: 'static>(push: bool) {
     core::mem::forget(other);
 }
 
-fn mk_e1() -> E1 { E1([0]) }
-fn mk_e2() -> E2 { E2(0) }
-fn mk_e3() -> E3 { E3([0; 3]) }
-fn mk_e8() -> E8 { E8(0) }
-fn mk_e12() -> E12 { E12([0; 3]) }
-fn mk_e16() -> E16 { E16([0; 16]) }
-fn mk_e24() -> E24 { E24([0; 3]) }
-fn mk_e160() -> E160 { E160([0; 20]) }
-fn mk_z0() -> Z0 { Z0 }
-fn mk_d8() -> D8 { D8(0) }
 
-h!(insert_raw_z0, insert_owned::<Z0>(SRC_RAW, false, true, false, mk_z0));
-h!(insert_raw_e1, insert_owned::<E1>(SRC_RAW, false, true, false, mk_e1));
-h!(insert_raw_e2, insert_owned::<E2>(SRC_RAW, false, false, false, mk_e2));
-h!(insert_raw_e3, insert_owned::<E3>(SRC_RAW, false, true, false, mk_e3));
-h!(insert_raw_e8, insert_owned::<E8>(SRC_RAW, false, true, false, mk_e8));
-h!(insert_raw_e12, insert_owned::<E12>(SRC_RAW, false, true, false, mk_e12));
-h!(insert_raw_e16, insert_owned::<E16>(SRC_RAW, false, false, false, mk_e16));
-h!(insert_raw_e24, insert_owned::<E24>(SRC_RAW, false, true, false, mk_e24));
-h!(insert_raw_e160, insert_owned::<E160>(SRC_RAW, false, true, false, mk_e160));
-h!(insert_wrapper_e8, insert_owned::<E8>(SRC_WRAPPER, false, true, false, mk_e8));
-h!(insert_wrapper_e3, insert_owned::<E3>(SRC_WRAPPER, false, true, false, mk_e3));
-h!(insert_wrapper_e16, insert_owned::<E16>(SRC_WRAPPER, false, true, false, mk_e16));
-h!(insert_wrapper_e24, insert_owned::<E24>(SRC_WRAPPER, false, true, false, mk_e24));
-h!(insert_typed_e8, insert_owned::<E8>(SRC_TYPED, false, false, false, mk_e8));
-h!(insert_typed_d8, insert_owned::<D8>(SRC_TYPED, false, true, false, mk_d8));
-h!(insert_typed_e12, insert_owned::<E12>(SRC_TYPED, false, false, false, mk_e12));
-h!(insert_typed_z0, insert_owned::<Z0>(SRC_TYPED, false, false, false, mk_z0));
-h!(insert_raw_fixed_e8, insert_owned::<E8>(SRC_RAW, false, true, true, mk_e8));
-h!(insert_typed_fixed_e8, insert_owned::<E8>(SRC_TYPED, false, false, true, mk_e8));
-h!(push_raw_e8, insert_owned::<E8>(SRC_RAW, true, true, false, mk_e8));
-h!(push_raw_e3, insert_owned::<E3>(SRC_RAW, true, true, false, mk_e3));
-h!(push_raw_z0, insert_owned::<Z0>(SRC_RAW, true, true, false, mk_z0));
-h!(push_wrapper_e16, insert_owned::<E16>(SRC_WRAPPER, true, true, false, mk_e16));
-h!(push_typed_e8, insert_owned::<E8>(SRC_TYPED, true, false, false, mk_e8));
-h!(push_typed_e24, insert_owned::<E24>(SRC_TYPED, true, false, false, mk_e24));
-h!(push_raw_fixed_e8, insert_owned::<E8>(SRC_RAW, true, true, true, mk_e8));
-h!(insert_from_remove_e8, insert_from_other::<E8>(false, super::k2_remove::OP_REMOVE));
-h!(insert_from_swap_remove_e8, insert_from_other::<E8>(false, super::k2_remove::OP_SWAP_REMOVE));
-h!(push_from_pop_e8, insert_from_other::<E8>(true, super::k2_remove::OP_POP));
-h!(push_from_remove_e16, insert_from_other::<E16>(true, super::k2_remove::OP_REMOVE));
-h!(insert_lazy_clone_e8, insert_lazy_clone::<E8>(false));
-h!(push_lazy_clone_e8, insert_lazy_clone::<E8>(true));
-h!(insert_lazy_clone_tgt_e8, insert_lazy_clone_tgt::<E8>(false));
+include!("k2_insert.inst.rs");
